@@ -14,6 +14,7 @@ import json
 import os
 
 from lib import common, pipeline, render
+from lib.checks import c01
 from lib.common import ToolError
 
 
@@ -46,6 +47,9 @@ def run(ctx):
         common.require_tlc_ok(ctx, gj, "GenObj / Sound")
         gj_sim = _uniq(common.tlc(ctx, "GenObj", cfg="GenObj_sim", workers=1, timeout=1500, simulate=400, depth=6)["cases"]["CASE"]) if not ctx.quick else []
         go_sim = _uniq(common.tlc(ctx, "GenColl", cfg="GenColl_sim", workers=1, timeout=1500, simulate=600, depth=6)["cases"]["CASE"]) if not ctx.quick else []
+        gi = common.tlc(ctx, "GenIter", cfg="GenIter_2", workers=8, timeout=6000, want_tags=("CASE", "DECLS"))
+        common.require_tlc_ok(ctx, gi, "GenIter / AllAccepted / Sound / OrderFree")
+        gi_sim = _uniq(common.tlc(ctx, "GenIter", cfg="GenIter_sim", workers=1, timeout=1500, simulate=300, depth=6)["cases"]["CASE"]) if not ctx.quick else []
     erows, prows = ge["cases"]["CASE"], gp["cases"]["CASE"]
 
     def pick(rows, n):
@@ -53,7 +57,7 @@ def run(ctx):
             return list(rows)
         buckets = {}
         for r in rows:
-            key = tuple(sorted(t for t in r["feats"] if t.startswith(("bin:", "binshape:", "bin-same", "un:", "call:", "index:", "slice", "stmt:", "match:", "pat:", "arm:", "data:", "subject:", "ctl:", "ctx:", "jump", "matchform:", "coll:", "m:", "f:", "listcomp", "dictcomp", "closure", "setidx:", "n:fstr", "n:tuple", "n:tfield", "obj", "n:setfield", "n:ctord"))))
+            key = tuple(sorted(t for t in r["feats"] if t.startswith(("bin:", "binshape:", "bin-same", "un:", "call:", "index:", "slice", "stmt:", "match:", "pat:", "arm:", "data:", "subject:", "ctl:", "ctx:", "jump", "matchform:", "coll:", "m:", "f:", "listcomp", "dictcomp", "closure", "setidx:", "n:fstr", "n:tuple", "n:tfield", "obj", "n:setfield", "n:ctord") + c01.ITER_TAGS)))
             buckets.setdefault(key, []).append(r)
         keys = sorted(buckets)
         rnd.shuffle(keys)
@@ -75,11 +79,15 @@ def run(ctx):
     cases += [pipeline.ctl_case(r, k) for k, r in enumerate(pick(gc["cases"]["CASE"], 120 if ctx.quick else 1500) + gc_sim)]
     cases += [pipeline.obj_case(r, k, gj["cases"]["DECLS"][0]) for k, r in enumerate(pick(gj["cases"]["CASE"], 100 if ctx.quick else 1000) + gj_sim)]
     cases += [pipeline.coll_case(r, k) for k, r in enumerate(pick(go["cases"]["CASE"], 160 if ctx.quick else 1500) + go_sim)]
+    irows = gi["cases"]["CASE"]
+    ipick = pick([r for r in irows if r["nops"] == 1], 90 if ctx.quick else 400) + pick([r for r in irows if r["nops"] > 1], 90 if ctx.quick else 800)
+    cases += [pipeline.iter_case(r, k, gi["cases"]["DECLS"][0]) for k, r in enumerate(ipick + gi_sim)]
     with ctx.timed("self_check"):
         rej = pipeline.self_check_exprs(ctx, [c for c in cases if c["kind"] == "expr"])
         rej.update(pipeline.self_check_progs(ctx, [c for c in cases if c["kind"] in ("prog", "coll", "obj")]))
         rej.update(pipeline.self_check_data(ctx, [c for c in cases if c["kind"] == "data"]))
         rej.update(pipeline.self_check_ctl(ctx, [c for c in cases if c["kind"] == "ctl"]))
+        rej.update(pipeline.self_check_iter(ctx, [c for c in cases if c["kind"] == "iter"]))
     cases = [c for c in cases if c["id"] not in rej]
     ev = pipeline.evaluate(ctx, cases)
     stats = {}
@@ -92,9 +100,9 @@ def run(ctx):
         if st == "check":
             continue            # not accepted by the real checker: outside C02's quantifier
         n_accepted += 1
-        distinct.add(c["decls"] if c["kind"] == "ctl" else ("\n".join(c["body"]) if c["kind"] in ("coll", "obj") else " ; ".join(c["body"][-4:])))
+        distinct.add(c["decls"] if c["kind"] == "ctl" else ("\n".join(c["body"]) if c["kind"] in ("coll", "obj", "iter") else " ; ".join(c["body"][-4:])))
         if st in ("emit", "build"):
-            ctx.fail(e["symptom"], {"src": c["body"], "diagnostic": e["detail"]},
+            ctx.fail(e["symptom"], {"src": c["body"], "decls": c["decls"] if c["kind"] == "iter" else "", "diagnostic": e["detail"]},
                      "accepted by the checker but the generated project does not build", tags=c["tags"])
     # ---------------------------------------------------------------- derive forms (spec/MC_Manifest.tla DeriveForms): built ALONE, one project
     # each, because the feature detection that decides the manifest looks at the whole program
@@ -183,6 +191,10 @@ def run(ctx):
                      "a repository example passes the checker but code generation fails")
     c0 = cases[len(cases) // 2]
     ctx.sample({"case_source": c0["body"], "tags": c0["tags"]})
+    # multi-module projects (spec/GenMod.tla, lib/modproj.py): the same declarations split over several files
+    with ctx.timed("modproj"):
+        from lib import modproj
+        modproj.run(ctx)
     common.write_evidence(ctx, "exploration", {
         "evaluations": len(cases) + len(files),
         "distinct_nontrivial": len(distinct),
